@@ -21,6 +21,19 @@ def ops():
             "-": o.sigma("-")}
 
 
+class InjectedValueError(InjectedFault, ValueError):
+    """A failing callable may raise any exception type."""
+
+
+class InjectedInterrupt(KeyboardInterrupt):
+    """... including one that is not an Exception (Ctrl-C inside a callable)."""
+
+
+EXC_FLAVOURS = {"exception": InjectedFault, "value_error": InjectedValueError,
+                "interrupt": InjectedInterrupt}
+INJECTED = (InjectedFault, InjectedInterrupt)
+
+
 class FaultPlan:
     """Which wrapped callable raises, and when.
 
@@ -34,6 +47,7 @@ class FaultPlan:
         self.armed = {}
         self.calls = {}
         self.fired = []
+        self.exc_class = InjectedFault
 
     def arm(self, name, spec):
         self.armed[name] = dict(spec)
@@ -51,7 +65,7 @@ class FaultPlan:
         if hit:
             del self.armed[name]
             self.fired.append((name, self.calls[name], step))
-            raise InjectedFault("injected fault in %s" % name)
+            raise self.exc_class("injected fault in %s" % name)
 
 
 def faulty(name, fn, plan, step_of=None, sim=None):
